@@ -10,6 +10,7 @@
   from the live soyhtml.PrintDirectives map (Gen/DirectiveTable.lean).
 -/
 import SoyVerif.Model.Escape
+import SoyVerif.Model.JsEscape2
 import SoyVerif.Gen.DirectiveTable
 
 namespace SoyVerif.Model.Directives
@@ -123,7 +124,7 @@ def applyImpl (impl : Bytes) (v : Bytes) (args : List Arg) : Res Bytes :=
   else if impl == sDirectiveNoAutoescape then .ok v
   else if impl == sDirectiveEscapeHtml then .ok (goHtmlEscape v)
   else if impl == sDirectiveEscapeUri then .ok (queryEscape v)
-  else if impl == sDirectiveEscapeJsString then .ok (jsEscape v)
+  else if impl == sDirectiveEscapeJsString then .ok (jsEscapeFixed v)
   else if impl == sDirectiveJson then .ok (jsonString v)
   else if impl == sNil then .panic                   -- call of a nil func
   else .unmodelled
